@@ -26,6 +26,12 @@ const (
 	c24RegChan = "my:chan" // registered with the proxy: forwarded through PluginMessageEvent
 )
 
+// c24Indexed: channels whose messages carry a send index (minecraft:register is a plugin message like any
+// other for the configuration-phase queue).
+func c24Indexed(ch string) bool {
+	return ch == c24Chan || ch == c24RegChan || ch == plugin.RegisterChannel
+}
+
 type c24Rig struct {
 	mode     string // "config" | "play"
 	w        *g7World
@@ -57,7 +63,13 @@ func c24Body(idx int, size int) []byte {
 	return b
 }
 
+// c24NewRig: mode "config" | "play"; the config phase also starts as "config-current" (a re-configuration
+// by the player's CURRENT server A: nothing in flight) and "config-none" (no server connection at all yet).
 func c24NewRig(mode string) *c24Rig {
+	variant := mode
+	if strings.HasPrefix(mode, "config") {
+		mode = "config"
+	}
 	r := &c24Rig{mode: mode, w: g7NewWorld(), backends: map[string]*g7Conn{}, scs: map[string]*serverConnection{}}
 	ci, _ := message.ChannelIdentifierFrom(c24RegChan)
 	r.w.Proxy.ChannelRegistrar().Register(ci)
@@ -78,7 +90,17 @@ func c24NewRig(mode string) *c24Rig {
 	r.newBackend("B", st)
 	switch mode {
 	case "config":
-		r.setInFlight("A")
+		switch variant {
+		case "config":
+			r.setInFlight("A")
+		case "config-current":
+			a := r.scs["A"]
+			a.completedJoin.Store(true)
+			r.player.mu.Lock()
+			r.player.connectedServer_ = a
+			r.player.mu.Unlock()
+		case "config-none":
+		}
 		r.cfg = newClientConfigSessionHandler(r.player)
 		r.client.handler = r.cfg
 	case "play":
@@ -105,14 +127,14 @@ func (r *c24Rig) newBackend(n string, st *state.Registry) {
 	}
 	bc := g7NewConn(n, r.protocol, st)
 	bc.onWrite = func(c *g7Conn, w g7Write) {
-		if pm, ok := w.Pkt.(*plugin.Message); ok && (pm.Channel == c24Chan || pm.Channel == c24RegChan) && len(pm.Data) >= 2 {
+		if pm, ok := w.Pkt.(*plugin.Message); ok && c24Indexed(pm.Channel) && len(pm.Data) >= 2 {
 			r.log = append(r.log, c24Delivery{n, int(pm.Data[0])<<8 | int(pm.Data[1])})
 		}
 	}
 	// A write the proxy attempts on a backend connection that the server switch closed concurrently is a
 	// delivery attempt to the departing backend, not a queueing fault: it counts as that message's delivery.
 	bc.onClosedWrite = func(c *g7Conn, w g7Write) {
-		if pm, ok := w.Pkt.(*plugin.Message); ok && (pm.Channel == c24Chan || pm.Channel == c24RegChan) && len(pm.Data) >= 2 {
+		if pm, ok := w.Pkt.(*plugin.Message); ok && c24Indexed(pm.Channel) && len(pm.Data) >= 2 {
 			r.log = append(r.log, c24Delivery{n + "(closed)", int(pm.Data[0])<<8 | int(pm.Data[1])})
 		}
 	}
@@ -259,7 +281,8 @@ func c24CheckLog(log []c24Delivery, sent int, dropped map[int]bool) (kind, desc 
 type c24Op string
 
 func c24ConfigOps() []c24Op {
-	return []c24Op{"msg", "regmsg", "readyA", "switchB", "readyB"}
+	// chreg = a minecraft:register message; bigmsg = a 64 KiB message (byte accounting across flushes)
+	return []c24Op{"msg", "regmsg", "readyA", "switchB", "readyB", "chreg", "bigmsg"}
 }
 func c24PlayOps() []c24Op {
 	// joinB/joinA = the whole JoinGame handling in one step; beginB .. endB = the same split where
@@ -278,6 +301,12 @@ type c24State struct {
 func c24Run(mode string, h []c24Op) bfs.Outcome {
 	r := c24NewRig(mode)
 	m := c24State{target: "A", ready: map[string]bool{}}
+	if mode == "config-none" {
+		m.target = ""
+	}
+	if strings.HasPrefix(mode, "config") {
+		mode = "config" // (violation keys and the oracle do not depend on how the phase started)
+	}
 	fail := func(kind, format string, a ...any) bfs.Outcome {
 		return bfs.Outcome{FailKey: mode + "/" + kind, FailDesc: fmt.Sprintf("history %v\n", h) + fmt.Sprintf(format, a...)}
 	}
@@ -292,6 +321,10 @@ func c24Run(mode string, h []c24Op) bfs.Outcome {
 				r.sendIndexed(c24Chan, 2)
 			case "regmsg":
 				r.sendIndexed(c24RegChan, 2)
+			case "chreg":
+				r.sendIndexed(plugin.RegisterChannel, 2)
+			case "bigmsg":
+				r.sendIndexed(c24Chan, 64<<10)
 			case "readyA":
 				err = r.cfg.flushQueuedPluginMessagesTo(r.scs["A"])
 			case "readyB":
@@ -330,7 +363,7 @@ func c24Run(mode string, h []c24Op) bfs.Outcome {
 		}
 		// model bookkeeping: what must be waiting in the proxy
 		switch op {
-		case "msg", "regmsg":
+		case "msg", "regmsg", "chreg", "bigmsg":
 			// play phase: without a connected, open backend the handler discards ordinary plugin messages by
 			// design (as Velocity does) - those are outside the statement
 			if live {
@@ -364,7 +397,7 @@ func c24Run(mode string, h []c24Op) bfs.Outcome {
 			if len(m.pending) != 0 {
 				return fail("not-drained", "step %d (%s): backend %s is ready, messages %v sent before are still undelivered", step, op, b, m.pending)
 			}
-		case mode == "config" && (op == "msg" || op == "regmsg") && m.ready[m.target]:
+		case mode == "config" && (op == "msg" || op == "regmsg" || op == "chreg" || op == "bigmsg") && m.ready[m.target]:
 			if len(m.pending) != 0 {
 				return fail("not-delivered-when-ready", "step %d (%s): backend %s is ready, message(s) %v were not delivered", step, op, m.target, m.pending)
 			}
@@ -397,7 +430,7 @@ func c24Run(mode string, h []c24Op) bfs.Outcome {
 
 func c24Enabled(mode string) func(h []c24Op, op c24Op) bool {
 	return func(h []c24Op, op c24Op) bool {
-		if mode != "config" {
+		if !strings.HasPrefix(mode, "config") {
 			joining, gone := false, false
 			for _, o := range h {
 				switch o {
@@ -422,6 +455,9 @@ func c24Enabled(mode string) func(h []c24Op, op c24Op) bool {
 			return true
 		}
 		target := "A"
+		if mode == "config-none" {
+			target = ""
+		}
 		ready := map[c24Op]bool{}
 		for _, o := range h {
 			if o == "switchB" {
@@ -437,7 +473,7 @@ func c24Enabled(mode string) func(h []c24Op, op c24Op) bool {
 		case "readyB":
 			return target == "B" && !ready["readyB"]
 		case "switchB":
-			return target == "A"
+			return target != "B"
 		}
 		return true
 	}
@@ -447,10 +483,14 @@ func c24Enabled(mode string) func(h []c24Op, op c24Op) bool {
 // Caps: exact boundaries of the 1024-message / 4 MiB limits.
 
 type c24CapCase struct {
-	Mode  string `json:"mode"`
-	Name  string `json:"name"`
-	Sizes []int  `json:"sizes,omitempty"` // explicit message sizes
-	Count int    `json:"count,omitempty"` // or: Count messages of 2 bytes
+	Mode string `json:"mode"`
+	Name string `json:"name"`
+	// Rounds > 1: the buffer is filled (Sizes/Count, which must stay within the caps), drained by the backend
+	// becoming ready, and filled again for a NEW not-yet-ready backend - the caps apply to what is buffered,
+	// not to what ever passed through the buffer
+	Rounds int   `json:"rounds,omitempty"`
+	Sizes  []int `json:"sizes,omitempty"` // explicit message sizes
+	Count  int   `json:"count,omitempty"` // or: Count messages of 2 bytes
 	// expectation from the statement
 	WantDisconnectAt int `json:"want_disconnect_at"` // 1-based index of the message that must disconnect; 0 = none
 }
@@ -472,6 +512,9 @@ func c24CapCases() []c24CapCase {
 			c24CapCase{Mode: mode, Name: "bytes-one-4MiB+1", Sizes: []int{4*MiB + 1}, WantDisconnectAt: 1},
 			c24CapCase{Mode: mode, Name: "bytes-4MiB-2+2", Sizes: []int{4*MiB - 2, 2}},
 			c24CapCase{Mode: mode, Name: "bytes-4MiB-2+3", Sizes: []int{4*MiB - 2, 3}, WantDisconnectAt: 2},
+			c24CapCase{Mode: mode, Name: "2-rounds-count-1024", Count: 1024, Rounds: 2},
+			c24CapCase{Mode: mode, Name: "2-rounds-one-4MiB", Sizes: []int{4 * MiB}, Rounds: 2},
+			c24CapCase{Mode: mode, Name: "3-rounds-3MiB", Sizes: []int{MiB, 2 * MiB}, Rounds: 3},
 		)
 	}
 	return out
@@ -487,6 +530,9 @@ func c24RunCap(c c24CapCase) (kind, desc string) {
 		for i := 0; i < c.Count; i++ {
 			sizes = append(sizes, 2)
 		}
+	}
+	if c.Rounds > 1 {
+		return c24RunCapRounds(c, r, sizes)
 	}
 	disconnectedAt := 0
 	for i, sz := range sizes {
@@ -537,6 +583,50 @@ func c24RunCap(c c24CapCase) (kind, desc string) {
 	return "", ""
 }
 
+// c24RunCapRounds: fill - drain - fill again. Config: the target becomes ready, then a fresh connection to
+// the other server is in flight; play: JoinGame of the next server, then a new handshake reset.
+func c24RunCapRounds(c c24CapCase, r *c24Rig, sizes []int) (kind, desc string) {
+	total := 0
+	target := "A"
+	for round := 1; round <= c.Rounds; round++ {
+		if round > 1 {
+			target = map[string]string{"A": "B", "B": "A"}[target]
+			if c.Mode == "config" {
+				r.newBackend(target, state.Config)
+				r.setInFlight(target)
+			} else {
+				r.player.SendLegacyForgeHandshakeResetPacket()
+			}
+		}
+		for i, sz := range sizes {
+			r.sendIndexed(c24Chan, sz)
+			if r.disconnected() {
+				return "cap-boundary", fmt.Sprintf("%s: round %d: player disconnected at message %d although the buffer held only this round's %d messages (within the caps); the earlier rounds were drained", c.Name, round, i+1, len(sizes))
+			}
+		}
+		var err error
+		if c.Mode == "config" {
+			err = r.cfg.flushQueuedPluginMessagesTo(r.scs[target])
+		} else {
+			err = r.join(map[string]string{"A": "B", "B": "A"}[target])
+		}
+		if err != nil {
+			return "error", fmt.Sprintf("%s: round %d: %v", c.Name, round, err)
+		}
+		total += len(sizes)
+		if len(r.log) != total {
+			return "lost", fmt.Sprintf("%s: round %d: %d messages sent so far, %d delivered", c.Name, round, total, len(r.log))
+		}
+		if n, b := r.queueLen(); n != 0 || b != 0 {
+			return "not-drained", fmt.Sprintf("%s: round %d: after the flush the buffer still accounts %d messages / %d bytes", c.Name, round, n, b)
+		}
+	}
+	if kind, desc := c24CheckLog(r.log, r.sent, nil); kind != "" {
+		return kind, c.Name + ": " + desc
+	}
+	return "", ""
+}
+
 // ---------------------------------------------------------------------------------------------
 
 type c24Replay struct {
@@ -564,11 +654,11 @@ func TestVerif(t *testing.T) {
 			}
 			return
 		}
-		depth := map[string]int{"config": 6, "play": 5}
+		depth := map[string]int{"config": 6, "config-current": 5, "config-none": 5, "play": 5}
 		if r.Thorough() {
-			depth = map[string]int{"config": 8, "play": 7}
+			depth = map[string]int{"config": 8, "config-current": 7, "config-none": 7, "play": 7}
 		}
-		for _, mode := range []string{"config", "play"} {
+		for _, mode := range []string{"config", "config-current", "config-none", "play"} {
 			mode := mode
 			ops := c24ConfigOps()
 			if mode == "play" {
